@@ -450,6 +450,13 @@ def _plan(ctx, thorough):
         cands = [S for S in small if 2 <= sizes[name] * abs(int(round(np.linalg.det(S)))) <= 9]
         S = cands[rng.randrange(len(cands))]
         add(name, S, vac=('rand' if t % 2 else None), order=rng.choice([2, 3]), nots=(t % 5 == 4))
+    # (3a) multi-site crystals whose jumps connect different basis sites across cell boundaries while a lattice vector
+    #      lies within the cluster cutoff, in cells large enough not to wrap: sampled occupations through update()
+    for name, S in [('HCP', np.diag([3, 3, 2])), ('DIA2', np.diag([3, 3, 3])), ('HONx2d', np.diag([3, 3, 1])),
+                    ('HONx2d', np.diag([4, 3, 1]))] + ([('HCP', np.diag([3, 3, 3])), ('DIA2', np.diag([4, 3, 3])),
+                                                       ('TRICLm', np.diag([3, 3, 3]))] if thorough else []):
+        add(name, S, order=3, exhaust=0, nrandom=(40 if thorough else 12), ntrans=10)
+        add(name, S, vac='rand', order=3, exhaust=0, nrandom=(40 if thorough else 12), nvacocc=12, vstruct=False)
     # (3) larger cells: random occupations through update(), table tests cover all occupations
     big = Z.big_supers()
     nb = 40 if thorough else 7
@@ -513,7 +520,9 @@ def _run_specs(ctx, specs):
                 ctx.disagree('%s: table test fails for jumps %r, exhaustive oracle for %r (%s)' % (k, sorted(fails), e, where),
                              dict(spec=spec, model=g[:2000], oracle=e), sig=None)
         else:
-            for kk, w in fails.items():
+            # replay the proposed minimal occupations on the real sampler (a few per table are enough)
+            ctx.count('table-test-failures', len(fails))
+            for kk, w in list(fails.items())[:3]:
                 ctx.count('witness-tried')
                 if kk < 0 or not isinstance(w, list) or not _try_witness(ctx, spec, k, kk, w):
                     ctx.disagree('%s: table test fails for jump %d but the proposed occupation %r satisfies detailed balance (%s)'
@@ -537,6 +546,12 @@ def search(ctx, reasons):
         if sizes[name] * abs(int(round(np.linalg.det(S)))) > 60: S = Z.supers()[3]
         specs.append(dict(id=1000 + t, zoo=name, S=np.array(S).tolist(), vac=('rand' if t % 2 else None),
                           seed=rng.getrandbits(32), order=rng.choice([2, 3]), exhaust=8, nrandom=10, ntrans=6, struct=False))
+    for t, (name, S) in enumerate([('HCP', np.diag([3, 3, 2])), ('HCP', np.diag([3, 3, 3])), ('DIA2', np.diag([3, 3, 3])),
+                                   ('HONx2d', np.diag([4, 3, 1])), ('TRICLm', np.diag([3, 3, 3])), ('RSm', np.diag([3, 3, 3])),
+                                   ('HONmm2d', np.diag([3, 3, 1])), ('CHAIN2', np.diag([6, 1, 1]))]):
+        for vac in (None, 'rand'):
+            specs.append(dict(id=2000 + 2 * t + (vac is not None), zoo=name, S=np.array(S).tolist(), vac=vac,
+                              seed=rng.getrandbits(32), order=3, exhaust=0, nrandom=30, ntrans=10, struct=False))
     _run_specs(ctx, specs)
 
 
